@@ -101,6 +101,7 @@ impl GraphBlock {
                 .map(|lang| format!("``` {}\n{}\n```\n", lang, text.trim_matches('\n')))
                 .unwrap_or_else(|| format!("```\n{}\n```\n", text.trim_matches('\n'))),
             GraphBlock::RawBlock(_, text) => text.clone(),
+            GraphBlock::BlockQuote(blocks) if blocks.is_empty() => String::new(),
             GraphBlock::BlockQuote(blocks) => {
                 blocks_to_markdown_sparce(blocks, options)
                     .lines()
@@ -608,6 +609,9 @@ pub fn blocks_to_markdown_sparce(blocks: &Blocks, options: &MarkdownOptions) -> 
     blocks
         .iter()
         .map(|block| block.to_markdown(options))
+        // a block that renders to nothing (a quote or list without content) must not
+        // leave a stray blank line behind
+        .filter(|markdown| !markdown.is_empty())
         .collect::<Vec<String>>()
         .join("\n")
 }
